@@ -34,6 +34,14 @@ class Snap:
                 "first": {k: _brief_val(v) for k, v in (self.params.get(self.ids[0], {}) if self.ids and isinstance(self.params, dict) else {}).items()}}
 
 
+def _r(x, n=80):
+    """repr, truncated (identifiers may be thousands of characters long)."""
+    if isinstance(x, (list, tuple)):
+        return "[" + ", ".join(_r(y, n) for y in list(x)[:6]) + (", ..." if len(x) > 6 else "") + "]"
+    t = repr(x)
+    return t if len(t) <= n else t[: n - 12] + f"...<{len(t)} chars>"
+
+
 def _brief_val(v):
     if isinstance(v, list):
         return [repr(x) for x in v[:6]]
@@ -83,33 +91,33 @@ def wellformed_problems(s: Snap):
     out = []
     bad = [i for i in s.ids if not isinstance(i, str)]
     if bad:
-        out.append(("ids-not-str", f"identifiers of types {sorted({type(i).__name__ for i in bad})}: {bad[:3]!r}", {}))
+        out.append(("ids-not-str", f"identifiers of types {sorted({type(i).__name__ for i in bad})}: {_r(bad)}", {}))
     if len(set(map(repr, s.ids))) != len(s.ids):
-        out.append(("ids-duplicated", f"{s.ids[:6]!r}", {}))
+        out.append(("ids-duplicated", f"{_r(s.ids)}", {}))
     if not isinstance(s.params, dict) or list(s.params.keys()) != s.ids:
-        out.append(("ids-order-of-dict-differs", f"list {s.ids[:6]!r} vs dict keys {list(s.params)[:6]!r}", {}))
+        out.append(("ids-order-of-dict-differs", f"list {_r(s.ids)} vs dict keys {_r(list(s.params))}", {}))
         return out
     if not s.ids:
         return out
     if not isinstance(s.shapes, dict):
-        out.append(("shape-record-missing", f"_parameters_shape = {s.shapes!r} with {len(s.ids)} individuals", {}))
+        out.append(("shape-record-missing", f"_parameters_shape = {_r(s.shapes)} with {len(s.ids)} individuals", {}))
         return out
     for p, sh in s.shapes.items():
         if not isinstance(sh, tuple):
-            out.append(("shape-record-not-tuple", f"shape of {p!r} recorded as {sh!r} ({type(sh).__name__})", {}))
+            out.append(("shape-record-not-tuple", f"shape of {_r(p)} recorded as {_r(sh)} ({type(sh).__name__})", {}))
             break
     for i in s.ids:
         d = s.params[i]
         if not isinstance(d, dict) or set(d) != set(s.shapes):
-            out.append(("names-inconsistent", f"individual {i!r} has names {sorted(d) if isinstance(d, dict) else d!r}, shapes record {sorted(s.shapes)}", {}))
+            out.append(("names-inconsistent", f"individual {_r(i)} has names {sorted(d) if isinstance(d, dict) else d!r}, shapes record {sorted(s.shapes)}", {}))
             break
         for p, v in d.items():
             if shape_of(v) is None:
-                out.append(("value-not-real", f"{i!r}.{p} = {_brief_val(v)}", {}))
+                out.append(("value-not-real", f"{_r(i)}.{p} = {_brief_val(v)}", {}))
                 return out
             rec = s.shapes[p]
             if not isinstance(rec, (tuple, list)) or tuple(rec) != shape_of(v):
-                out.append(("shape-record-inconsistent", f"{i!r}.{p} has shape {shape_of(v)} but record says {s.shapes[p]!r}", {}))
+                out.append(("shape-record-inconsistent", f"{_r(i)}.{p} has shape {shape_of(v)} but record says {s.shapes[p]!r}", {}))
                 return out
     return out
 
@@ -160,11 +168,11 @@ def compare(got: Snap, want: Snap, *, f32=False, scalar_to_vec=False, check_orde
         return out
     if got.ids != want.ids:
         if sorted(map(repr, got.ids)) == sorted(map(repr, want.ids)):
-            out.append(("ids-reordered", f"{want.ids[:6]!r} -> {got.ids[:6]!r}", {}))
+            out.append(("ids-reordered", f"{_r(want.ids)} -> {_r(got.ids)}", {}))
         elif [str(i) for i in got.ids] == want.ids:
-            out.append(("ids-not-str", f"{want.ids[:6]!r} -> {got.ids[:6]!r}", {}))
+            out.append(("ids-not-str", f"{_r(want.ids)} -> {_r(got.ids)}", {}))
         else:
-            out.append(("ids-changed", f"{want.ids[:6]!r} -> {got.ids[:6]!r}", {}))
+            out.append(("ids-changed", f"{_r(want.ids)} -> {_r(got.ids)}", {}))
         return out
     if out:
         return out
@@ -179,7 +187,7 @@ def compare(got: Snap, want: Snap, *, f32=False, scalar_to_vec=False, check_orde
         gsh = got.shapes[p]
         ok = tuple(gsh) == tuple(wsh) or (scalar_to_vec and wsh == () and tuple(gsh) == (1,))
         if not ok:
-            out.append(("shape-changed", f"{p!r}: {wsh} -> {gsh}", {"from": list(wsh), "to": list(gsh)}))
+            out.append(("shape-changed", f"{_r(p)}: {wsh} -> {gsh}", {"from": list(wsh), "to": list(gsh)}))
             return out
     worst, worst_rel, n_bad, first = 0.0, 0.0, 0, None
     signlost = 0
@@ -188,7 +196,7 @@ def compare(got: Snap, want: Snap, *, f32=False, scalar_to_vec=False, check_orde
             gv = got.params[i][p]
             gl, wl = flat(gv), flat(wv)
             if len(gl) != len(wl):
-                out.append(("shape-changed", f"{i!r}.{p}: {len(wl)} -> {len(gl)} elements", {}))
+                out.append(("shape-changed", f"{_r(i)}.{p}: {len(wl)} -> {len(gl)} elements", {}))
                 return out
             for g, w in zip(gl, wl):
                 same, u = value_same(g, w, f32)
@@ -197,7 +205,7 @@ def compare(got: Snap, want: Snap, *, f32=False, scalar_to_vec=False, check_orde
                     worst = max(worst, u)
                     worst_rel = max(worst_rel, rel_err(g, w))
                     if first is None:
-                        first = f"{i!r}.{p}: {w!r} -> {g!r}"
+                        first = f"{_r(i)}.{p}: {_r(w)} -> {_r(g)}"
                 elif float(w) == 0.0 and math.copysign(1.0, float(w)) != math.copysign(1.0, float(g)):
                     signlost += 1
     if n_bad:
@@ -217,9 +225,9 @@ def table_problems(s: Snap, index_name, index_values, columns, rows):
     """Is (index, columns, rows) the documented table form of ``s``?  rows = list of lists of cell values."""
     out = []
     if index_name != "ID":
-        out.append(("table-index-not-named-ID", f"index name {index_name!r}", {}))
+        out.append(("table-index-not-named-ID", f"index name {_r(index_name)}", {}))
     if list(index_values) != s.ids or any(not isinstance(i, str) for i in index_values):
-        out.append(("table-ids-changed", f"{s.ids[:6]!r} -> {list(index_values)[:6]!r}", {}))
+        out.append(("table-ids-changed", f"{_r(s.ids)} -> {_r(list(index_values))}", {}))
         return out
     expected_cols = []  # list of acceptable name sets per column position
     for p, sh in (s.shapes or {}).items():
@@ -229,14 +237,14 @@ def table_problems(s: Snap, index_name, index_values, columns, rows):
         else:
             expected_cols += [{f"{p}_{k}"} for k in range(n)]
     if len(columns) != len(expected_cols) or any(c not in e for c, e in zip(columns, expected_cols)):
-        out.append(("table-columns-not-documented-scheme", f"columns {list(columns)[:8]!r} for shapes {s.shapes!r}", {}))
+        out.append(("table-columns-not-documented-scheme", f"columns {_r(list(columns)[:8])} for shapes {_r(s.shapes)}", {}))
         return out
     for i, row in zip(s.ids, rows):
         want = [x for p in s.shapes for x in flat(s.params[i][p])]
         for c, g, w in zip(columns, row, want):
             same, _ = value_same(g, w, False)
             if not same:
-                out.append(("table-values-changed", f"row {i!r} column {c!r}: {w!r} -> {g!r}", {}))
+                out.append(("table-values-changed", f"row {_r(i)} column {_r(c)}: {_r(w)} -> {_r(g)}", {}))
                 return out
     return out
 
@@ -245,7 +253,7 @@ def tensor_form_problems(s: Snap, ids, tensors):
     """Is (ids, {name: tensor}) the documented tensor form of ``s``?  Tensors are read via shape / dtype / tolist."""
     out = []
     if list(ids) != s.ids or any(not isinstance(i, str) for i in ids):
-        out.append(("tensor-ids-changed", f"{s.ids[:6]!r} -> {list(ids)[:6]!r}", {}))
+        out.append(("tensor-ids-changed", f"{_r(s.ids)} -> {_r(list(ids))}", {}))
         return out
     if set(tensors) != set(s.shapes or {}):
         out.append(("tensor-names-changed", f"{sorted(s.shapes or {})} -> {sorted(tensors)}", {}))
@@ -254,17 +262,17 @@ def tensor_form_problems(s: Snap, ids, tensors):
         sh = s.shapes[p]
         size = 1 if tuple(sh) == () else sh[0]
         if tuple(t.shape) != (len(s.ids), size):
-            out.append(("tensor-not-2d", f"{p!r}: tensor shape {tuple(t.shape)} for {len(s.ids)} individuals of shape {sh}", {}))
+            out.append(("tensor-not-2d", f"{_r(p)}: tensor shape {tuple(t.shape)} for {len(s.ids)} individuals of shape {sh}", {}))
             return out
         if str(t.dtype) != "torch.float32":
-            out.append(("tensor-not-float32", f"{p!r}: dtype {t.dtype}", {}))
+            out.append(("tensor-not-float32", f"{_r(p)}: dtype {t.dtype}", {}))
             return out
         rows = t.tolist()
         for i, row in zip(s.ids, rows):
             for g, w in zip(row, flat(s.params[i][p])):
                 same, _ = value_same(g, w, True)
                 if not same:
-                    out.append(("tensor-values-changed", f"{i!r}.{p}: {w!r} -> {g!r}", {}))
+                    out.append(("tensor-values-changed", f"{_r(i)}.{p}: {_r(w)} -> {_r(g)}", {}))
                     return out
     return out
 
